@@ -113,7 +113,8 @@ Inductive expr :=
 | EThe (k : thekind) (i : nat)             (* the <i-th special property / date-time function / system property> *)
 | ETheN (n : nat)                          (* the <names[n]>: a property addressed by name (5F n) *)
 | EAcc (n : nat) (a : expr)                (* the <names[n]> of a (61 n) *)
-| EKey (n : nat).                          (* the <names[n]>: a key / mouse / date property (empty argument list, 66 n) *)
+| EKey (n : nat)                           (* the <names[n]>: a key / mouse / date property (empty argument list, 66 n) *)
+| EField (a : expr).                       (* field a (1B) *)
 
 Definition b (z : Z) : byte := byte_of_Z z.
 
@@ -145,6 +146,7 @@ Fixpoint compile_e (e : expr) : bytes :=
   | EBin o x y => compile_e x ++ compile_e y ++ [b (bcode o)]
   | ENeg x => compile_e x ++ [b 9]
   | ENot x => compile_e x ++ [b 20]
+  | EField x => compile_e x ++ [b 27]
   | ECall f args => flat_map compile_e args ++ compile_arglist (List.length args) true ++ [b 87; b (Z.of_nat f)]
   | ELCall f args => flat_map compile_e args ++ compile_arglist (List.length args) true ++ [b 86; b (Z.of_nat f)]
   | EList items => flat_map compile_e items ++ compile_arglist (List.length items) true ++ [b 30]
@@ -161,7 +163,7 @@ Fixpoint compile_e (e : expr) : bytes :=
 Fixpoint ninstr (e : expr) : nat :=
   match e with
   | EBin _ x y => ninstr x + ninstr y + 1
-  | ENeg x | ENot x => ninstr x + 1
+  | ENeg x | ENot x | EField x => ninstr x + 1
   | EObj _ _ x => ninstr x + 2
   | EMenu _ it mn => ninstr it + (ninstr mn + 2)
   | EThe _ _ => 2
@@ -205,6 +207,7 @@ Fixpoint reify_e (en : env) (pc : Z) (e : expr) {struct e} : node :=
     Binary (bname o) (py + zlen (compile_e y)) (reify_e en px x) (reify_e en py y)
   | ENeg x => Unary "minus" (pc + zlen (compile_e x)) (reify_e en pc x)
   | ENot x => Unary "not" (pc + zlen (compile_e x)) (reify_e en pc x)
+  | EField x => Unary "field" (pc + zlen (compile_e x)) (reify_e en pc x)
   | ECall f args =>
     let '(ns, pa) := reify_args pc args in
     Call (nm en f) (pa + arglist_len (List.length args)) (Some (LoadList "<load_list>" pa (rev ns))) true false false
@@ -248,7 +251,7 @@ Fixpoint globals_e (en : env) (pc : Z) (e : expr) {struct e} : list node :=
   match e with
   | EGlob n => [Leaf KGlobal (nm en n) pc true]
   | EBin _ x y => globals_e en pc x ++ globals_e en (pc + zlen (compile_e x)) y
-  | ENeg x | ENot x | EObj _ _ x | EAcc _ x => globals_e en pc x
+  | ENeg x | ENot x | EObj _ _ x | EAcc _ x | EField x => globals_e en pc x
   | EMenu _ it mn => globals_e en pc it ++ globals_e en (pc + zlen (compile_e it)) mn
   | ECall _ args | ELCall _ args | EList args | EPList args => go_args pc args
   | _ => []
@@ -270,7 +273,7 @@ Fixpoint wf_e (en : env) (e : expr) {struct e} : Prop :=
   | ELoc i => (i < List.length (e_locals en))%nat /\ scaled i < 256
   | EPar i => (i < List.length (e_params en))%nat /\ scaled i < 256
   | EBin _ x y => wf_e en x /\ wf_e en y
-  | ENeg x | ENot x => wf_e en x
+  | ENeg x | ENot x | EField x => wf_e en x
   | ECall f args => (f < List.length (e_names en))%nat /\ Z.of_nat f < 256 /\ Z.of_nat (List.length args) < 65536 /\
                     (fix all (l : list expr) : Prop := match l with [] => True | x :: r => wf_e en x /\ all r end) args
   | ELCall f args => (f < List.length (e_lfuncs en))%nat /\ Z.of_nat f < 256 /\ Z.of_nat (List.length args) < 65536 /\
